@@ -102,6 +102,33 @@ class World:
         self.mid_plan: list = []
         self.mid_done: list = []
         self.over = F(0)
+        # independent system clock of the monitor: integral of the rate over the virtual real time,
+        # from the pause / resume / scale operations the harness itself issues
+        self._ind_rate = F(scale)
+        self._ind_paused = False
+        self._ind_scale = F(scale)
+        self._ind_at = F(start)
+        self._ind_val = F(self.ctl.perf_counter())
+        for nm in ("pause", "resume", "set_time_scale"):
+            orig = getattr(ptime, nm)
+
+            def wrapped(*a, _orig=orig, _nm=nm):
+                self._ind_sync()
+                r = _orig(*a)
+                if _nm == "pause": self._ind_paused = True
+                elif _nm == "resume": self._ind_paused = False
+                else: self._ind_scale = F(a[0])
+                self._ind_rate = F(0) if self._ind_paused else self._ind_scale
+                return r
+            setattr(ptime, nm, wrapped)
+
+    def _ind_sync(self) -> None:
+        self._ind_val += self._ind_rate * (self.std.now - self._ind_at)
+        self._ind_at = self.std.now
+
+    def sys_ind(self) -> F:
+        self._ind_sync()
+        return self._ind_val
 
     def sys(self) -> F:
         saved, self.std.script = self.std.script, []
@@ -118,6 +145,10 @@ class World:
             self.ptime.resume()
         elif ev[0] == "s":
             self.ptime.set_time_scale(float(F(ev[1])))
+        elif ev[0] == "x":
+            # exporting the clock state (what every state save does, also while paused) is pure
+            # (C06 export_pure): it has no counterpart in the Adjust model
+            self.ptime.state_dict()
         else:
             raise ValueError(ev)
 
@@ -145,7 +176,7 @@ def show_ev(ev) -> str:
 
 
 def show_evs(evs) -> str:
-    return show_list(evs, show_ev)
+    return show_list([e for e in evs if e[0] != "x"], show_ev)
 
 
 def adj_tokens(adj: dict, world: World) -> str:
@@ -262,6 +293,7 @@ def run_case(case: dict, driver):
 
             def observe(self):
                 marks["S"] = world.sys(); log.append("environment.observe")
+                marks["S_ind"] = world.sys_ind()
                 world.apply(cur["body"][0]); return 0
 
             def affect(self, action):
@@ -298,6 +330,7 @@ def run_case(case: dict, driver):
                 RecAgent(), RecEnv(), float(interval), float(offset))
             cur["setup"] = case.get("setup", [[], []])
             inter.setup()
+            prev_ind = None
             T_prev = world.sys()
             lines.append(f"adjust isetup evs={show_evs(cur['setup'][0] + cur['setup'][1])}")
             impl.append(f"calls={show_list(log)} sys={show_frac(T_prev)}")
@@ -325,6 +358,17 @@ def run_case(case: dict, driver):
                 ovh_real = (F(env.get("a1", "0")) + F(env.get("a2", "0"))
                             + (F(env.get("over", "0")) if slept else 0))
                 monitor_cycle(f"step#{k}", E, T, excused, ovh_real * marks["scale"])
+                # the same pacing rule measured on the monitor's own system clock (integral of the
+                # scale over un-paused real time): a clock that jumps must not hide a burst of steps
+                if prevS is not None and marks.get("S_ind") is not None and prev_ind is not None \
+                        and not prevS[3] and not excused and not world.std.script \
+                        and F(env.get("a1", "0")) == 0 and F(env.get("a2", "0")) == 0:
+                    if marks["S_ind"] - prev_ind < w and S - prevS[0] >= w:
+                        violate("adjust:starts-close-in-true-system-time",
+                                f"step#{k} started {show_frac(marks['S_ind'] - prev_ind)} of system time "
+                                f"(scale x un-paused real time) after step#{k-1}, less than interval-offset "
+                                f"= {show_frac(w)}, while the controller's clock claims {show_frac(S - prevS[0])}")
+                prev_ind = marks.get("S_ind")
                 G = S - T_prev
                 if prevS is not None:
                     pS, pE, pG, pexc, pfree = prevS
@@ -372,7 +416,9 @@ def gen_evs(rng, pauses: bool, scales: bool, durs=DUR) -> list:
         if r < 0.6 or not (pauses or scales):
             evs.append(["w", rng.choice(durs)])
         elif r < 0.85 and pauses:
-            evs += [["p"], ["w", rng.choice(["0", "1", "7", "100"])], ["r"]]
+            mid = [["x"]] if rng.random() < 0.4 else []
+            evs += [["p"], ["w", rng.choice(["0", "1", "7", "100"])], *mid,
+                    ["w", rng.choice(["0", "1"])], ["r"]]
         elif scales:
             evs.append(["s", rng.choice(SCALES)])
     return evs
